@@ -6,7 +6,7 @@ out=$(/verif/tools/mut_eval.sh "$P" "$M" "$TIER")
 echo "$out"
 line=$(echo "$out" | grep '^RESULT')
 if echo "$line" | grep -q 'clean_demo=0 build=0 mutant_demo=1 suite=0'; then
-  id="$P-$(basename $(dirname $M) | sed 's/^w2.*/w2/;s/^C.*//')$(basename $M)"; d=/verif/seeded/$id; mkdir -p $d
+  id="$P-$(basename $(dirname $M) | sed 's/^w\([0-9]\).*/w\1/;s/^C.*//')$(basename $M)"; d=/verif/seeded/$id; mkdir -p $d
   cp "$M/patch.diff" "$M/demo_test.go" $d/
   python3 - "$M/meta.json" "$d/meta.json" "$line" "$TIER" <<'PY'
 import json,sys,re
